@@ -1,108 +1,10 @@
-//! Type zoo registry: monomorphised function pointers per generated type (DESIGN 3, 4).
+//! Type zoo registry (DESIGN 3, 4): the operation tables of all zoo crates in the append-only order of
+//! `zoo/ORDER` (pinned replay tapes address types by index).
 
-use crate::choices::Lane;
-use crate::gen::{GenCfg, GenReader, GenStats};
-use crate::trace::TraceBits;
-use crate::tree::{Tree, TreeWriter};
-use crate::treeread::{TreeReadCfg, TreeReadError, TreeReadStats, TreeReader};
-use asn1rs::prelude::*;
-use asn1rs::protocol::per::Error as PerError;
-use asn1rs::protocol::protobuf::Error as ProtoError;
-use asn1rs::protocol::basic::Error as BasicError;
-use crate::io::{FaultyRead, FaultyWrite};
-use std::any::Any;
-use std::fmt::Debug;
+pub use simcore::zoo_ops::*;
 use std::sync::OnceLock;
 
 include!(concat!(env!("OUT_DIR"), "/zoo_gen.rs"));
-
-pub type Val = Box<dyn Any>;
-
-pub const F_PROTO: u32 = 1;
-pub const F_HOSTILE: u32 = 2;
-pub const F_DER: u32 = 4;
-pub const F_SENTINEL: u32 = 8;
-pub const F_ZEROBIT: u32 = 16;
-pub const F_CHAIN: u32 = 32;
-/// the type has a list directly inside a list (protobuf read-back never terminates: D11)
-pub const F_NESTED_LIST: u32 = 64;
-
-pub struct TypeOps {
-    pub name: &'static str,
-    pub module: &'static str,
-    pub flags: u32,
-    /// `chain=<name>:<version>` annotation
-    pub chain: Option<(String, u32)>,
-    pub size_of: usize,
-    pub gen: for<'a> fn(Lane<'a>, GenCfg) -> (Val, GenStats),
-    pub tree: fn(&Val) -> Tree,
-    pub eq: fn(&Val, &Val) -> bool,
-    pub debug: fn(&Val) -> String,
-    pub from_tree: for<'a> fn(&Tree, Lane<'a>, TreeReadCfg) -> Result<(Val, TreeReadStats), TreeReadError>,
-    pub uper_write: fn(&Val, &mut UperWriter) -> Result<(), PerError>,
-    pub uper_read: for<'a, 'b> fn(&'b mut UperReader<Bits<'a>>) -> Result<Val, PerError>,
-    pub uper_read_traced: for<'a, 'b> fn(&'b mut UperReader<TraceBits<'a>>) -> Result<Val, PerError>,
-    pub proto_write: for<'a, 'b> fn(&Val, &'b mut ProtobufWriter<'a>) -> Result<(), ProtoError>,
-    pub proto_read: for<'a, 'b> fn(&'b mut ProtobufReader<'a>) -> Result<Val, ProtoError>,
-    /// only meaningful for F_DER types (everything else is `todo!()` in rw/der.rs)
-    pub der_write: for<'a, 'b> fn(&Val, &'b mut BasicWriter<&'a mut FaultyWrite>) -> Result<(), BasicError>,
-    pub der_read: for<'a, 'b> fn(&'b mut BasicReader<&'a mut FaultyRead>) -> Result<Val, BasicError>,
-}
-
-fn down<T: 'static>(v: &Val) -> &T {
-    v.downcast_ref::<T>().expect("zoo value of the wrong type (harness error)")
-}
-
-pub fn ops<T>(name: &'static str, module: &'static str, flags: &[&str]) -> TypeOps
-where
-    T: Readable + Writable + PartialEq + Debug + 'static,
-{
-    let mut bits = 0;
-    let mut chain = None;
-    for f in flags {
-        match *f {
-            "proto" => bits |= F_PROTO,
-            "hostile" => bits |= F_HOSTILE,
-            "der" => bits |= F_DER,
-            "sentinel" => bits |= F_SENTINEL,
-            "zerobit" => bits |= F_ZEROBIT,
-            "nestedlist" => bits |= F_NESTED_LIST,
-            other => {
-                if let Some(rest) = other.strip_prefix("chain=") {
-                    let mut it = rest.split(':');
-                    let n = it.next().unwrap().to_string();
-                    let v: u32 = it.next().unwrap().parse().unwrap();
-                    chain = Some((n, v));
-                    bits |= F_CHAIN;
-                } else {
-                    panic!("unknown zoo flag {other}");
-                }
-            }
-        }
-    }
-    TypeOps {
-        name,
-        module,
-        flags: bits,
-        chain,
-        size_of: std::mem::size_of::<T>(),
-        gen: |lane, cfg| {
-            let (v, s) = GenReader::generate::<T>(lane, cfg);
-            (Box::new(v) as Val, s)
-        },
-        tree: |v| TreeWriter::tree_of(down::<T>(v)),
-        eq: |a, b| down::<T>(a) == down::<T>(b),
-        debug: |v| format!("{:?}", down::<T>(v)),
-        from_tree: |t, lane, cfg| TreeReader::build_with_stats::<T>(t, lane, cfg).map(|(v, s)| (Box::new(v) as Val, s)),
-        uper_write: |v, w| w.write(down::<T>(v)),
-        uper_read: |r| r.read::<T>().map(|v| Box::new(v) as Val),
-        uper_read_traced: |r| r.read::<T>().map(|v| Box::new(v) as Val),
-        proto_write: |v, w| w.write(down::<T>(v)),
-        proto_read: |r| r.read::<T>().map(|v| Box::new(v) as Val),
-        der_write: |v, w| w.write(down::<T>(v)),
-        der_read: |r| r.read::<T>().map(|v| Box::new(v) as Val),
-    }
-}
 
 pub struct Zoo {
     pub types: Vec<TypeOps>,
@@ -113,7 +15,13 @@ static ZOO: OnceLock<Zoo> = OnceLock::new();
 pub fn zoo() -> &'static Zoo {
     ZOO.get_or_init(|| {
         let mut types = Vec::new();
-        register(&mut types);
+        register_all(&mut types, prims);
+        Zoo { types }
+    })
+}
+
+fn prims(types: &mut Vec<TypeOps>) {
+    {
         // descriptor-level types for DER (the only kinds rw/der.rs implements besides ENUMERATED)
         types.push(ops::<prim::PBool>("prim.PBool", "-", &["der"]));
         types.push(ops::<prim::PInt<u8>>("prim.PIntU8", "-", &["der"]));
@@ -124,10 +32,7 @@ pub fn zoo() -> &'static Zoo {
         types.push(ops::<prim::PInt<i32>>("prim.PIntS32", "-", &["der"]));
         types.push(ops::<prim::PInt<u64>>("prim.PIntU64", "-", &["der"]));
         types.push(ops::<prim::PInt<i64>>("prim.PIntS64", "-", &["der"]));
-        // everything added later is appended (see zoo/ORDER)
-        register_more(&mut types);
-        Zoo { types }
-    })
+    }
 }
 
 impl Zoo {
@@ -142,35 +47,3 @@ impl Zoo {
     }
 }
 
-/// hand-written descriptor-level types: `Integer<T, NoConstraint>` and `Boolean<NoConstraint>` as the
-/// repo's own DER tests use them
-pub mod prim {
-    use asn1rs::descriptor::numbers::Number;
-    use asn1rs::descriptor::*;
-
-    #[derive(Debug, PartialEq, Clone)]
-    pub struct PBool(pub bool);
-    impl Writable for PBool {
-        fn write<W: Writer>(&self, w: &mut W) -> Result<(), W::Error> {
-            Boolean::<boolean::NoConstraint>::write_value(w, &self.0)
-        }
-    }
-    impl Readable for PBool {
-        fn read<R: Reader>(r: &mut R) -> Result<Self, R::Error> {
-            Boolean::<boolean::NoConstraint>::read_value(r).map(PBool)
-        }
-    }
-
-    #[derive(Debug, PartialEq, Clone)]
-    pub struct PInt<T: Number>(pub T);
-    impl<T: Number> Writable for PInt<T> {
-        fn write<W: Writer>(&self, w: &mut W) -> Result<(), W::Error> {
-            Integer::<T, numbers::NoConstraint>::write_value(w, &self.0)
-        }
-    }
-    impl<T: Number> Readable for PInt<T> {
-        fn read<R: Reader>(r: &mut R) -> Result<Self, R::Error> {
-            Integer::<T, numbers::NoConstraint>::read_value(r).map(PInt)
-        }
-    }
-}
